@@ -352,13 +352,13 @@ SA_RULES = CALL_RULES + [
     IdxRule(r'A\.ptr', 'A.nrows + 1', '+'),
     IdxRule(r'A\.col|A\.val', 'A_nnz', '+'),
     # value arithmetic: compound assignments and the conditional initialiser of va
-    Rule(r'(?P<l>\bomega|\bdia|P->val\[[^;]*?\]) (?P<op>[-+*/])= (?P<e>[^;]+);', _opassign, 4, why='R-arith: x OP= e'),
+    Rule(r'(?P<l>\bomega|\bdia|P->val\[[^;]*?\]) (?P<op>[-+*/])= (?P<e>[^;]+);', _opassign, '+', why='R-arith: x OP= e'),
     Rule(r'value_type va = \((?P<c>[^()?;]+)\)\s*\?\s*(?P<a>[^;?]+?)\s*:\s*(?P<b>[^;:?]+);', _va_select, 1, flags=re.M | re.S,
          why='R-arith: both arms of the conditional initialiser'),
 ]
 SA_UF = [
-    UF(r'\bdia = (?P<e>-[^;]+);', 1),                                      # dia = -omega * math::inverse(dia)
-    UF(r'P->val\[[^;=]*?\] = (?P<e>[^;U]+);', 1),                          # P->val[row_end] = va * vp
+    UF(r'\) dia = (?P<e>[^;]+);', None),                                      # dia = -omega * math::inverse(dia)
+    UF(r'P->val\[[^;=]*?\] = (?P<e>[^;U]+);', '+'),                          # P->val[row_end] = va * vp
 ]
 
 # the result P can have up to n * m entries (more than the inputs): its arrays get their own capacity
@@ -527,17 +527,20 @@ void h_sa_smooth(void)
 ''',
     entry='h_sa_smooth', mode='unwound', unwind='NMAX*NMAX+3', model='uf (16-bit tokens)',
     types=['value_type', 'scalar_type'],
-    variants=[{'NMAX': 3, 'ZMAX': 5, 'ZTMAX': 3, 'TROWMAX': 1, 'NROWS': 3}, {'NMAX': 2, 'ZMAX': 4, 'ZTMAX': 3, 'TROWMAX': 2}],
-    thorough_variants=[{'NMAX': 3, 'ZMAX': 6, 'ZTMAX': 3, 'TROWMAX': 1, 'NROWS': 3}, {'NMAX': 2, 'ZMAX': 4, 'ZTMAX': 4, 'TROWMAX': 2}],
-    bound_text='all square matrices with n <= 3, nnz <= 5 (thorough 6), one stored diagonal per row, no duplicate column in a row; '
-               'every 0/1 strong-connection flag array; every well-formed tentative prolongation n x m, m <= 3, nnz <= 3 (thorough 4), '
-               'no duplicate column in a row; values, relax, rho uninterpreted; all symbolic',
+    # measured (minisat, load 8): n == 3 / nnz <= 5 / one entry per tentative row: 190 s (70 s of it index safety + wf alone);
+    # n == 3 / nnz <= 4: 38 s; n <= 2 / nnz <= 4 / tentative rows <= 2 entries: 34 s; n == 3 with general tentative rows: > 900 s
+    variants=[{'NMAX': 3, 'ZMAX': 4, 'ZTMAX': 3, 'TROWMAX': 1, 'NROWS': 3}, {'NMAX': 2, 'ZMAX': 4, 'ZTMAX': 3, 'TROWMAX': 2}],
+    thorough_variants=[{'NMAX': 3, 'ZMAX': 5, 'ZTMAX': 3, 'TROWMAX': 1, 'NROWS': 3}, {'NMAX': 2, 'ZMAX': 4, 'ZTMAX': 4, 'TROWMAX': 2}],
+    bound_text='two variants: (a) n == 3, nnz <= 4 (thorough 5), tentative prolongation with at most one entry per row (the '
+               'piecewise-constant case); (b) n <= 2, nnz <= 4, tentative rows with up to 2 entries, nnz(P_tent) <= 3 (thorough 4). '
+               'One stored diagonal per row, no duplicate column in a row of A or P_tent, m <= n columns; every 0/1 strong-connection '
+               'flag array; values, relax, rho uninterpreted; estimate_spectral_radius on/off; all symbolic',
     assumptions=A_BOUNDED + [A_NODUP,
         'A-diag: every row of A stores exactly one diagonal entry (the identity term of I - omega D^-1 A^F is attached to it)',
         'A-uf: values are opaque 16-bit tokens (EUF small-model argument), + - * / inverse is_zero uninterpreted',
         'A-given: aggregates (strong_connection) and the tentative prolongation are given inputs; backend::spectral_radius is an '
         'opaque callee whose result is a ghost input'],
-    replay='coarsening', timeout=600,
+    replay='coarsening', timeout=900,
     witness=wit('A', 'T') + ['w_strong', 'w_estimate', 'w_iters', 'w_relax', 'w_rho', 'w_i0', 'w_c0'],
     not_decided=['rows whose filtered diagonal is zero (values)', 'floating-point evaluation, hence "rows sum to one" as a numerical statement',
                  'the statements before the region: Aggregates, eps_strong *= 0.5, tentative_prolongation (separate units)',
@@ -545,4 +548,285 @@ void h_sa_smooth(void)
 )
 sa_smooth.unwindset = [(r'for\(ptrdiff_t jp', 'TROWMAX+1'), (REPO_LOOPS, 'NMAX+1')]
 
-UNITS = [rs_interp, sa_smooth]
+# ================================================================================================
+# ruge_stuben::connect  (strong connections and their transposed pattern)
+# ================================================================================================
+CN_SIG = (r'static void connect\(\s*backend::crs<Val,  Col, Ptr> const &A, float eps_strong,\s*'
+          r'backend::crs<char, Col, Ptr>       &S,\s*std::vector<char>                  &cf\s*\)\s*(?=\{)')
+
+CN_RULES = [
+    Rule(r'^\s*typedef typename math::scalar_of<Val>::type Scalar;\n', '', 1, early=True, why='Scalar is bound by the instantiation'),
+    Rule(r'eps<Scalar>\(1\)', 'DETAIL_EPS(Scalar, 1)', 1, why='amgcl::detail::eps<T>(n) at the integer instantiation'),
+    Rule(r'S\.ptr = NEW\(Ptr,', 'S.ptr = NEW_PTR(Ptr,', 1, why='R-new'),
+    Rule(r'S\.val = NEW\(char,', 'S.val = NEW_NNZ(char,', 1, why='R-new'),
+    Rule(r'S\.col = new Col\[(?P<a>[^;]+)\];', r'S.col = NEW_NNZ(Col, \g<a>); const size_t S_col_n = (size_t)(\g<a>);', 1, early=True,
+         why='R-new (nested brackets: before the generic rule); ghost: logical length of S.col'),
+    Rule(r'for\(auto a = row_begin\(A, i\); a; \+\+a\)', 'for(ptrdiff_t a = A.ptr[i], a_end = A.ptr[i+1]; a < a_end; ++a)', 1,
+         why='R-iter: definition of crs::row_iterator (builtin.hpp)'),
+    Rule(r'\ba\.col\(\)', 'A.col[a]', 1, why='R-iter'),
+    Rule(r'\ba\.value\(\)', 'A.val[a]', 1, why='R-iter'),
+    Rule(r'\b(\w+) ([-+*/])= (eps_strong)\b', lambda m: '%s = SCALE_%s(%s, %s)' % (m.group(1), _OPN[m.group(2)], m.group(1), m.group(3)),
+         1, why='R-arith: Val OP= float parameter'),
+    Rule(r'S\.scan_row_sizes\(\);', 'scrs_scan_row_sizes(&S);', 1, why='R-member-call'),
+    IdxRule(r'cf', 'n', '+'),
+    IdxRule(r'S\.ptr', 'n + 1', '+'),
+    IdxRule(r'S\.val', 'nnz', '+'),
+    IdxRule(r'S\.col', 'S_col_n', '+'),
+    IdxRule(r'A\.ptr', 'A.nrows + 1', '+'),
+    IdxRule(r'A\.col|A\.val', 'nnz', '+'),
+]
+
+SPEC_CN = r'''
+/* backend::crs<char, Col, Ptr>: the fields connect() touches, in declaration order */
+typedef struct { size_t nrows, ncols, nnz; ptr_type *ptr; col_type *col; char *val; } scrs;
+static ptr_type scrs_scan_row_sizes(scrs *self)
+{
+/*@CUT:scan_row_sizes@*/
+}
+#define IN_ROW(A, i, j) ((ptrdiff_t)(j) >= (A)->ptr[i] && (ptrdiff_t)(j) < (A)->ptr[(i) + 1])
+/* most negative off-diagonal coupling of row i (0 when there is none) */
+static int cn_row_min(const crs *A, size_t i)
+{
+  int lo = 0;
+  for (size_t j = 0; j < CAP_NNZ; ++j) if (IN_ROW(A, i, j) && (size_t)A->col[j] != i && A->val[j] < lo) lo = A->val[j];
+  return lo;
+}
+typedef struct { _Bool frow, flags, cfkeep; } cn_post;
+/* Row i (arbitrary, chosen by the harness).  Documented (ruge_stuben.hpp, params::eps_strong and the comment on connect):
+ *   i is strongly negatively coupled to j  if  -a_ij >= eps_str * max_{a_ik<0} |a_ik|   -- the code tests  a_ij < eps_str * min_k a_ik
+ *   (strict); the two differ only at equality, so: strictly beyond the threshold => flag 1, strictly inside or j == i => flag 0,
+ *   at equality either; every flag is 0 or 1.  A variable without a negative off-diagonal coupling is marked F and has NO
+ *   strong connection (all flags of its row 0); every other variable stays undecided (U).                                   */
+static void cn_spec_row(const crs *A, const scrs *S, const char *cf, int thr, size_t i, cn_post *r)
+{
+  const int amin = cn_row_min(A, i);
+  r->frow = r->flags = r->cfkeep = 1;
+  if (amin == 0) { if (cf[i] != 'F') r->frow = 0; } else if (cf[i] != 'U') r->cfkeep = 0;
+  for (size_t j = 0; j < CAP_NNZ; ++j) if (IN_ROW(A, i, j)) {
+    const int v = A->val[j]; const char f = S->val[j];
+    if (!(f == 0 || f == 1)) r->flags = 0;
+    if (amin == 0) { if (f != 0) r->frow = 0; continue; }
+    if ((size_t)A->col[j] == i) { if (f != 0) r->flags = 0; continue; }
+    if (v < thr && f != 1) r->flags = 0;
+    if (v > thr && f != 0) r->flags = 0;
+  }
+}
+/* S.ptr / S.col hold the transposed pattern of the flags: row c lists every i with a flagged entry (i, c), ascending */
+static _Bool cn_spec_transposed(const crs *A, const scrs *S, size_t c0, size_t i0)
+{
+  int want = 0, got = 0;
+  for (size_t j = 0; j < CAP_NNZ; ++j) if (IN_ROW(A, i0, j) && (size_t)A->col[j] == c0 && S->val[j]) ++want;
+  for (size_t k = 0; k < CAP_NNZ; ++k) if (IN_ROW(S, c0, k)) {
+    if ((size_t)S->col[k] == i0) ++got;
+    if ((ptrdiff_t)k + 1 < S->ptr[c0 + 1] && !(S->col[k] <= S->col[k + 1])) return 0;
+  }
+  return want == got;
+}
+static _Bool scrs_wf(const scrs *S, size_t n, size_t nflag)
+{
+  if (!(S->nrows == n && S->ncols == n && S->ptr[0] == 0)) return 0;
+  for (size_t i = 0; i < NMAX; ++i) if (i < n) { if (!(S->ptr[i] <= S->ptr[i + 1])) return 0; }
+  if ((size_t)S->ptr[n] != nflag) return 0;
+  for (size_t k = 0; k < CAP_NNZ; ++k) if (k < nflag) { if (!(S->col[k] >= 0 && (size_t)S->col[k] < n)) return 0; }
+  return 1;
+}
+'''
+
+rs_connect = Unit(
+    name='ruge_stuben_connect', props=['C04', 'C10'],
+    functions=['coarsening::ruge_stuben::connect(A, eps_strong, S, cf)', 'crs::scan_row_sizes'],
+    desc='every strong-connection flag of every row is written: 1 for an off-diagonal coupling strictly beyond eps_strong * (most '
+         'negative off-diagonal of the row), 0 strictly inside and on the diagonal; a row without negative off-diagonal coupling is '
+         'marked F and has no strong connection; S.ptr / S.col hold the transposed pattern of the flags',
+    cuts=dict(scan_row_sizes=crs_member_cuts()['scan_row_sizes'],
+              body=Cut(RS, CN_SIG, rules=CN_RULES)),
+    template='#define MODEL_INT32 1\n' + BOUNDED_PRELUDE + ONE_MALLOC + COARSEN_PRELUDE + RS_MODEL + SPEC_CN + r'''
+#ifndef VLIM
+#define VLIM 8
+#endif
+WITNESS_CRS(A)
+int w_eps_strong, w_thr[NMAX + 1]; size_t w_i0, w_c0;
+/* contract (enforced by the harness below):
+ *   requires crs_wf(A) && square && no duplicate column in a row && |values| <= VLIM; cf[i] == 'U' for every i (as passed by
+ *            transfer_operators); S default-constructed; eps_strong >= 0
+ *   assigns  S.nrows, S.ncols, S.ptr, S.col, S.val (fresh arrays), cf[i] for rows without a negative off-diagonal coupling
+ *   ensures  see the ENSURES clauses                                                              */
+static void f_rs_connect(const crs *A_p, int eps_strong, scrs *S_p, char *cf)
+{
+#define A (*A_p)
+#define S (*S_p)
+/*@CUT:body@*/
+#undef S
+#undef A
+}
+void h_rs_connect(void)
+{
+  crs *A = crs_input();
+  scrs S; int eps_strong;
+  char *cf = (char *)malloc(CAP_PTR);
+  size_t i0, c0;                              /* ghost: the row / column the clauses are checked for (arbitrary) */
+  S.nrows = 0; S.ncols = 0; S.nnz = 0; S.ptr = 0; S.col = 0; S.val = 0;
+  REQUIRES(crs_wf(A, NMAX, NMAX, ZMAX) && A->nrows == A->ncols && crs_vals_small(A, VLIM) && crs_vals_even(A));
+  REQUIRES(crs_rows_distinct(A));
+  REQUIRES(i0 < A->nrows && c0 < A->nrows);
+  for (size_t i = 0; i < NMAX; ++i) if (i < A->nrows) {
+    REQUIRES(cf[i] == 'U');
+    w_thr[i] = SCALE_MUL(cn_row_min(A, i), eps_strong);
+    REQUIRES(w_thr[i] <= 0);                  /* precondition eps_strong >= 0 at the value the function scales in row i */
+  }
+  MIRROR_CRS(A, A); w_eps_strong = eps_strong; w_i0 = i0; w_c0 = c0;
+  crs_snap s; crs_snapshot(A, &s);
+  g_thrown = 0;
+  f_rs_connect(A, eps_strong, &S, cf);
+  ENSURES(!g_cap_exceeded, "bound artefact: allocation within verification capacity");
+  {
+    cn_post r; size_t nflag = 0;
+    cn_spec_row(A, &S, cf, w_thr[i0], i0, &r);
+    ENSURES(r.flags, "connect: every flag of a row with a negative off-diagonal coupling is written: 1 strictly beyond eps_strong * min_k a_ik, 0 strictly inside and on the diagonal, 0/1 at equality");
+    ENSURES(r.frow, "connect: a variable without a negative off-diagonal coupling is marked F and has no strong connection (every flag of its row is 0)");
+    ENSURES(r.cfkeep, "connect: a variable with a negative off-diagonal coupling stays undecided (U)");
+    for (size_t j = 0; j < CAP_NNZ; ++j) if (j < (size_t)A->ptr[A->nrows] && S.val[j]) ++nflag;
+    ENSURES(scrs_wf(&S, A->nrows, nflag), "connect: S.ptr / S.col are a well-formed n x n pattern with one entry per strong connection");
+    ENSURES(cn_spec_transposed(A, &S, c0, i0), "connect: row c of S.ptr / S.col lists exactly the rows i with a strong connection (i, c), ascending (transposed pattern)");
+  }
+  ENSURES(crs_unchanged(A, &s), "frame: the input matrix is not modified");
+  CANARY("harness.end");
+}
+''',
+    entry='h_rs_connect', mode='unwound', unwind='max(ZMAX,NMAX)+3', model='int32 (ordered ring) + uninterpreted scaling by eps_strong',
+    variants=[{'NMAX': 3, 'ZMAX': 6}],
+    thorough_variants=[{'NMAX': 3, 'ZMAX': 7}],
+    bound_text='all square matrices with n <= 3, nnz <= 6 (thorough 7), no duplicate column in a row, even integer values in [-8,8] '
+               '(diagonal stored or not, rows unsorted, any signs), every threshold scaling with eps_strong >= 0; all symbolic; '
+               'fresh arrays hold arbitrary prior heap content',
+    assumptions=A_BOUNDED + [A_NODUP,
+        'A-inst-rs: Val = int32, even, |v| <= 8: comparisons, std::min and math::norm are exact; x * eps_strong is an uninterpreted '
+        'function with eps_strong * x <= 0 for x <= 0; amgcl::detail::eps<Scalar>(1) = 1 < the unit 2 of the values'],
+    replay='coarsening', timeout=600,
+    witness=wit('A') + ['w_eps_strong', 'w_thr', 'w_i0', 'w_c0'],
+    not_decided=['the boundary case -a_ij == eps_strong * max|a_ik| (documented >=, implemented as strict <): either flag is accepted',
+                 'floating-point rounding of eps_strong * a_min'],
+)
+rs_connect.unwindset = [(r'i < nnz', 'ZMAX+1'), (REPO_LOOPS, 'NMAX+1')]
+
+# ================================================================================================
+# ruge_stuben::cfsplit  (C/F splitting)
+# ================================================================================================
+CF_SIG = (r'static void cfsplit\(\s*backend::crs<Val,  Col, Ptr> const &A,\s*backend::crs<char, Col, Ptr> const &S,\s*'
+          r'std::vector<char>                  &cf\s*\)\s*(?=\{)')
+
+
+def _vec_local(m):
+    return 'vec_pd %s_v = vec_pd_new_n(%s, %s); ptrdiff_t *%s = %s_v.p;' % (m.group('v'), m.group('a'), m.group('x') or '0', m.group('v'), m.group('v'))
+
+
+CF_RULES = [
+    Rule(r'std_vector<(?:Col|Ptr)> (?P<v>\w+)\((?P<a>[^;,]+)(?:,\s*(?P<x>[^;]+))?\);', _vec_local, 5, why='R-vector'),
+    Rule(r'std_partial_sum\(ptr\.begin\(\), ptr\.end\(\), ptr\.begin\(\)\);', 'std_partial_sum_P(ptr, ptr + ptr_v.n, ptr);', 1, why='A-std'),
+    Rule(r'std_replace\(cf\.begin\(\), cf\.end\(\),', 'std_replace_char(cf, cf + n,', None, why='A-std (optional: a dropped call must fail a postcondition, not the extraction)'),
+    Rule(r'std_swap\(', 'STD_SWAP_PD(', '+', why='A-std'),
+    IdxRule(r'cf', 'n', '+'),
+    IdxRule(r'lambda', 'lambda_v.n', '+'),
+    IdxRule(r'ptr', 'ptr_v.n', '+'),
+    IdxRule(r'cnt', 'cnt_v.n', '+'),
+    IdxRule(r'i2n', 'i2n_v.n', '+'),
+    IdxRule(r'n2i', 'n2i_v.n', '+'),
+    IdxRule(r'S\.ptr', 'n + 1', '+'),
+    IdxRule(r'S\.col', 'S_col_n', '+'),
+    IdxRule(r'S\.val', 'A_nnz', '+'),
+    IdxRule(r'A\.ptr', 'A.nrows + 1', '+'),
+    IdxRule(r'A\.col', 'A_nnz', '+'),
+]
+
+SPEC_CF = r'''
+static void std_replace_char(char *first, char *last, char a, char b) { for (char *p = first; p != last; ++p) if (*p == a) *p = b; }   /* std::replace (A-std) */
+#define STD_SWAP_PD(a, b) do { ptrdiff_t swap_t_ = (a); (a) = (b); (b) = swap_t_; } while (0)                                        /* std::swap (A-std) */
+/* postcondition of connect() for ALL rows / columns (precondition here) */
+static _Bool cf_pre_connect(const crs *A, const scrs *S, const char *cf)
+{
+  size_t nflag = 0;
+  for (size_t j = 0; j < CAP_NNZ; ++j) if (j < (size_t)A->ptr[A->nrows]) { if (!(S->val[j] == 0 || S->val[j] == 1)) return 0; if (S->val[j]) ++nflag; }
+  if (!scrs_wf(S, A->nrows, nflag)) return 0;
+  for (size_t i = 0; i < NMAX; ++i) if (i < A->nrows) {
+    if (!(cf[i] == 'U' || cf[i] == 'F')) return 0;
+    for (size_t j = 0; j < CAP_NNZ; ++j) if (IN_ROW(A, i, j) && S->val[j]) {
+      if ((size_t)A->col[j] == i) return 0;       /* the diagonal is never a strong connection            */
+      if (cf[i] == 'F') return 0;                 /* a variable marked F by connect has no strong connection */
+    }
+    for (size_t c = 0; c < NMAX; ++c) if (c < A->nrows) { if (!cn_spec_transposed(A, S, c, i)) return 0; }
+  }
+  return 1;
+}
+'''
+
+rs_cfsplit = Unit(
+    name='ruge_stuben_cfsplit', props=['C04', 'C10'],
+    functions=['coarsening::ruge_stuben::cfsplit(A, S, cf)'],
+    desc='for every strong-connection pattern that satisfies the postcondition of connect(): every variable ends up C or F, variables '
+         'marked F by connect() stay F, every subscript of the bucket tables (lambda, ptr, cnt, i2n, n2i) is in range; A and S untouched',
+    cuts=dict(scan_row_sizes=crs_member_cuts()['scan_row_sizes'],
+              body=Cut(RS, CF_SIG, rules=CF_RULES)),
+    template='#define MODEL_INT32 1\n' + BOUNDED_PRELUDE + ONE_MALLOC + COARSEN_PRELUDE + RS_MODEL + SPEC_CN + SPEC_CF + r'''
+WITNESS_CRS(A)
+int w_S[CAP_NNZ], w_cf[CAP_PTR];
+/* contract (enforced by the harness below):
+ *   requires crs_wf(A) && square && no duplicate column in a row; (S, cf) satisfy the postcondition of connect(): flags 0/1, never on
+ *            the diagonal, none in a row marked F, S.ptr / S.col the transposed pattern of the flags; cf[i] in {U, F}
+ *   assigns  cf[0 .. n-1]
+ *   ensures  see the ENSURES clauses                                                              */
+static void f_rs_cfsplit(const crs *A_p, const scrs *S_p, char *cf)
+{
+#define A (*A_p)
+#define S (*S_p)
+  const size_t A_nnz = nonzeros(A), S_col_n = (size_t)S.ptr[S.nrows];   /* ghost: logical lengths */
+/*@CUT:body@*/
+#undef S
+#undef A
+}
+void h_rs_cfsplit(void)
+{
+  crs *A = crs_input();
+  scrs S;
+  char *cf = (char *)malloc(CAP_PTR);
+  char cf0[CAP_PTR], S0[CAP_NNZ]; ptr_type Sp0[CAP_PTR]; col_type Sc0[CAP_NNZ];
+  S.ptr = (ptr_type *)malloc(sizeof(ptr_type) * CAP_PTR); S.col = (col_type *)malloc(sizeof(col_type) * CAP_NNZ); S.val = (char *)malloc(CAP_NNZ);
+  S.nnz = 0;
+#ifdef NROWS
+  A->nrows = NROWS; A->ncols = NROWS;         /* variant: exact size */
+#endif
+  REQUIRES(crs_wf(A, NMAX, NMAX, ZMAX) && A->nrows == A->ncols);
+  REQUIRES(crs_rows_distinct(A));
+  S.nrows = A->nrows; S.ncols = A->nrows;
+  REQUIRES(cf_pre_connect(A, &S, cf));
+  MIRROR_CRS(A, A);
+  for (size_t j = 0; j < CAP_NNZ; ++j) { S0[j] = S.val[j]; Sc0[j] = S.col[j]; w_S[j] = S.val[j]; }
+  for (size_t i = 0; i < CAP_PTR; ++i) { cf0[i] = cf[i]; Sp0[i] = S.ptr[i]; w_cf[i] = cf[i]; }
+  crs_snap s; crs_snapshot(A, &s);
+  g_thrown = 0;
+  f_rs_cfsplit(A, &S, cf);
+  ENSURES(!g_cap_exceeded, "bound artefact: allocation within verification capacity");
+  for (size_t i = 0; i < NMAX; ++i) if (i < A->nrows) {
+    ENSURES(cf[i] == 'C' || cf[i] == 'F', "cfsplit: every variable ends up C or F");
+    ENSURES(cf0[i] != 'F' || cf[i] == 'F', "cfsplit: a variable marked F by connect() stays F");
+  }
+  for (size_t j = 0; j < CAP_NNZ; ++j) ENSURES(S.val[j] == S0[j] && S.col[j] == Sc0[j], "frame: S is not modified");
+  for (size_t i = 0; i < CAP_PTR; ++i) ENSURES(S.ptr[i] == Sp0[i], "frame: S is not modified");
+  ENSURES(crs_unchanged(A, &s), "frame: the input matrix is not modified");
+  CANARY("harness.end");
+}
+''',
+    entry='h_rs_cfsplit', mode='unwound', unwind='max(ZMAX,NMAX)+3', model='none (pattern only)',
+    variants=[{'NMAX': 3, 'ZMAX': 5}],
+    thorough_variants=[{'NMAX': 3, 'ZMAX': 6}],
+    bound_text='all square sparsity patterns with n <= 3, nnz <= 5 (thorough 6), no duplicate column in a row, every strong-connection '
+               'flag array with its transposed pattern and every marking over {U, F} that connect() can return; all symbolic',
+    assumptions=A_BOUNDED + [A_NODUP,
+        'A-given: (S, cf) satisfy the postcondition of connect() (unit ruge_stuben_connect): composition by the Hoare sequence rule',
+        'A-std: std::replace / std::swap / std::partial_sum are prelude stubs'],
+    replay='coarsening', timeout=900,
+    witness=wit('A') + ['w_S', 'w_cf'],
+    not_decided=['quality of the splitting (e.g. every F variable has a strong C neighbour): not promised by the documentation'],
+)
+rs_cfsplit.unwindset = [(REPO_LOOPS, 'NMAX+1')]
+
+UNITS = [rs_interp, sa_smooth, rs_connect, rs_cfsplit]
